@@ -163,6 +163,45 @@ def trees_check(chk, drv, want_identity, n=None, discouraged=False):
                 chk.fail(sig, {'tree': tr}, str(X.first_diff(got, exp)))
 
 
+def adjacent_nodes_check(chk, drv, want_identity):
+    """character data split over ADJACENT nodes (text+text, text+CDATA, CDATA+text): an encoder that looks at one node at a
+    time must not rely on what a single string looks like (`]]` + `>`, `&` + `amp;`, `\r` + `\n`, `]]>` across nodes)"""
+    from odf.element import Element, Text, CDATASection
+    import itertools
+    strings = set()
+    for k in (2, 3):
+        for tup in itertools.product([u']', u'>', u'&', u'<', u'\r', u'\n', u'a', u';', u'#'], repeat=k):
+            strings.add(u''.join(tup))
+    for a in TOKENS:
+        strings.add(a)
+        if chk.tier != 'quick':
+            for b in TOKENS:
+                strings.add(a + b)
+    lines = []; metas = []
+    for s in sorted(strings):
+        for cut in range(1, len(s)):
+            for kinds in (('T', 'T'), ('T', 'C'), ('C', 'T')):
+                tr = ('E', u'', u'a', [], [(kinds[0], s[:cut]), (kinds[1], s[cut:])])
+                e = X.build(tr)
+                real = X.to_xml(e)
+                lines.append('render ' + X.wire_table(X.ns_table()) + ' ' + X.wire_tree(X.walk(e)))
+                metas.append((tr, real, s))
+    ans = drv.batch(lines)
+    for (tr, real, s), a in zip(metas, ans):
+        doc = PROLOGUE + real
+        chk.corr(); chk.count('adjacent_nodes')
+        if a != 'ok ' + enc_str(doc):
+            chk.corr_diff({'tree': tr}, doc[:200], dec_str(a[3:])[:200] if a.startswith('ok ') else a, 'adjacent character-data nodes')
+        ok, res = wellformed(doc)
+        chk.case(('adjacent', tr[4][0], tr[4][1]))
+        if not ok:
+            chk.fail('not-wellformed:adjacent-nodes', {'tree': tr}, '%s: %r' % (res, doc[39:200]))
+        elif want_identity:
+            got = u''.join(k[1] for k in res[4])
+            if got != X.repl_illegal(s):
+                chk.fail('value-changed:adjacent-nodes', {'tree': tr}, 'parsed back as %r, expected %r' % (got, X.repl_illegal(s)))
+
+
 def hu_like(s):
     return u''.join(u'�' if (not X.is_xml_char(c) or X.is_discouraged(c)) else c for c in s)
 
